@@ -49,10 +49,11 @@ TTune == /\ Is("Tune") /\ tune = NoTune /\ l' = l + 1 /\ Ev.folds >= 2 /\ tune' 
 TCb == /\ Is("Cb") /\ tune # NoTune /\ l' = l + 1
        /\ Ev.fold \in 0..(tune.folds - 1) /\ Ev.trial >= 0
        /\ Ev.splitOK                                               \* (train, valid) are the splitter's for that fold
-       \* the warm start ("previous relevant model") handed to the callback: nothing, or what a callback of the SAME fold that had
-       \* FINISHED before returned (warmFinished) - in the first batch nothing, later the model of a trial of the earlier batches
-       \* closest in the hyper-parameter space, any of the closest (warmClosest; not demanded when the driver cannot see the batches)
-       /\ Ev.warmFinished /\ Ev.warmClosest
+       \* the warm start ("previous relevant model") handed to the callback is recorded (warmFinished: nothing, or what a callback of the
+       \* same fold that had finished before returned; warmClosest: from a trial of the earlier batches closest in the hyper-parameter
+       \* space) but NOT demanded: the property says nothing about warm starts, which model is handed over is the implementation's
+       \* choice. What a callback can receive at all is what an earlier callback returned:
+       /\ Ev.warmFinished \in BOOLEAN /\ Ev.warmClosest \in BOOLEAN
        /\ <<Ev.trial, Ev.fold>> \notin cbs /\ cbs' = cbs \cup {<<Ev.trial, Ev.fold>>}   \* exactly once per slot
        /\ UNCHANGED <<grid, evald, nonfinite, status, tune, stores>>
 TStored == /\ Is("Stored") /\ tune # NoTune /\ l' = l + 1
